@@ -209,6 +209,8 @@ def engines():
     E['weekly'] = [A('ta', 'a', ev=[{'dow': 2, 'time': t0}])]
     E['weekly-analysis'] = [A('ta', 'a'), A('tz', 'z', 'analysis', inputs=[('ta', 'a', 's', None)],
                                             ev=[{'dow': 2, 'time': t0}])]
+    # Monday is the legal, falsy day of week 0 (seeded C20-m12)
+    E['weekly-monday'] = [A('ta', 'a', ev=[{'dow': 0, 'time': t0}])]
     E['monthly-15'] = [A('ta', 'a', ev=[{'dom': 15, 'time': t0}])]
     E['monthly-31'] = [A('ta', 'a', ev=[{'dom': 31, 'time': t0}])]
     E['two-weekly'] = [A('ta', 'a', ev=[{'dow': 2, 'time': t0}]), A('tb', 'b', ev=[{'dow': 4, 'time': t0}])]
